@@ -322,6 +322,13 @@ def otel(ctx, facts, rule_f):
         okkv = bool(c) and has_origin(prov.of_operand(kv, kv.term(c[0])["args"][0]), kind="param", key=2, path_suffix=(".0",)) and \
             has_origin(prov.of_operand(kv, kv.term(c[0])["args"][1]), kind="param", key=2, path_suffix=(".1",))
         ctx.check(okkv, rule_f, kv.path, kv.span, "KeyValue::new(key <- pair.0, value <- pair.1)", "", "argument origins differ", extra="KeyValue")
+    # property values stay text: every KeyValue of the reporter is built from a textual value type (a value that is parsed into
+    # Value::I64 / Bool first is not the recorded string any more: "007" becomes 7)
+    kvs = [(g, b) for g in facts.fns.values() if g.crate == "fastrace_opentelemetry" for b in g.calls_re(r"opentelemetry::common::KeyValue::new$", cleanup=False)]
+    TEXT = re.compile(r"^(alloc::borrow::Cow<'\w+, str>|alloc::string::String|&'?\w* ?str|opentelemetry::common::StringValue)$")
+    badkv = [(g.path, g.loc(b), g.term(b).get("targs", [])[1:2]) for g, b in kvs if len(g.term(b).get("targs", [])) < 2 or not TEXT.match(g.term(b)["targs"][1])]
+    ctx.check(bool(kvs) and not badkv, rule_f, "fastrace_opentelemetry", "-", "every attribute value is handed to KeyValue::new as text (the recorded string, unparsed)",
+              "%d KeyValue::new sites" % len(kvs), "non-textual value types: %s" % badkv, extra="KeyValue.text")
     # events <- map_events(record.events)
     ev = f["events"]
     sd = fn.single_def(root_local(fn, ev)[0]) if ev["k"] in ("copy", "move") else None
